@@ -212,6 +212,9 @@ def _decode(a):
     return None
 
 
+COMPARED = [0]      # datasets compared by compare_h5 in this process
+
+
 def compare_h5(pin, pout, case, tags, where, strip_logs=False,
                strip_basins=False, scalar_only=False, ignore_logs=()):
     """Every dataset of the input must be in the output with equal values
@@ -258,6 +261,7 @@ def compare_h5(pin, pout, case, tags, where, strip_logs=False,
                 bad("dataset-missing", f"{name} ({lay})", kind=kind)
                 return
             ob = b[name]
+            COMPARED[0] += 1
             da, db = _decode(obj[...]), None
             if da is not None:
                 db = _decode(ob[...])
@@ -300,6 +304,7 @@ def _task_case(args):
         shutil.rmtree(d)
     d.mkdir()
     out = []
+    COMPARED[0] = 0
     case = {"kind": "task", "task": task, "opts": opts, "variant": variant,
             "seed": seed}
     tags = {"task": task}
@@ -343,7 +348,7 @@ def _task_case(args):
                              dict(tags, exc=type(e).__name__)))
     finally:
         shutil.rmtree(d, ignore_errors=True)
-    return out
+    return out, COMPARED[0]
 
 
 def _condense_scalars(src, o1, opts, case, tags, where):
@@ -382,6 +387,7 @@ def _tdms_case(args):
         shutil.rmtree(d)
     d.mkdir()
     out = []
+    ncmp = 0
     case = {"kind": "tdms", "name": name, "compute": compute}
     where = "dclab.cli.task_tdms2rtdc:tdms2rtdc"
     tags = {"task": "tdms2rtdc"}
@@ -403,6 +409,7 @@ def _tdms_case(args):
             feats = di.features if compute else di.features_innate
             lmin = len(do)
             for f in feats:
+                ncmp += 1
                 if f not in do.features_innate:
                     out.append(violation(where, "feature-missing", case, f,
                                          dict(tags, feat=f)))
@@ -443,7 +450,7 @@ def _tdms_case(args):
                              dict(tags, exc=type(e).__name__)))
     finally:
         shutil.rmtree(d, ignore_errors=True)
-    return out
+    return out, ncmp
 
 
 def run(ctx):
@@ -475,21 +482,27 @@ def run(ctx):
                   "fmt-tdms_fl-image-large-fov_2017.zip"]
     titems = [(n, c, scratch) for n in names for c in (False, True)]
     viols = []
-    for vs in par.pmap(_task_case, items):
+    nontriv = 0
+    compared = 0
+    for vs, nc in par.pmap(_task_case, items) + par.pmap(_tdms_case,
+                                                          titems):
         viols.extend(vs)
-    for vs in par.pmap(_tdms_case, titems):
-        viols.extend(vs)
+        nontriv += nc > 0
+        compared += nc
     ncells = len(LAYOUTS) * 5 + 4 + 4
     cov = {"evaluations": len(items) + len(titems),
-           "distinct_nontrivial": len(items) + len(titems),
+           "distinct_nontrivial": nontriv,
+           "datasets_compared": compared,
            "layout_kind_cells_per_file": ncells,
            "file_variants": len(list(variants)),
            "rule": "one case = (task, options, file variant); each file "
                    "variant rotates the assignment of 11 storage layouts to "
                    "12 scalar features, 3 image-like features, 3 traces, 6 "
                    "contour entries, 15 logs (fixed/variable length, empty), "
-                   "4 tables (with attributes) and basin definitions; every "
-                   "case is non-trivial (dozens of datasets are compared)",
+                   "4 tables (with attributes) and basin definitions; a "
+                   "case is non-trivial when the task completed and at "
+                   "least one dataset / feature of the output was compared "
+                   "with the input (counted)",
            "tdms_cases": len(titems),
            "samples": [{"task": i[0], "opts": i[1], "variant": i[2]}
                        for i in (items[0], items[5], items[-1])],
@@ -504,6 +517,6 @@ def run(ctx):
 
 def replay(case, ctx):
     if case["kind"] == "tdms":
-        return _tdms_case((case["name"], case["compute"], ctx.scratch))
+        return _tdms_case((case["name"], case["compute"], ctx.scratch))[0]
     return _task_case((case["task"], case["opts"], case["variant"],
-                       case["seed"], ctx.scratch))
+                       case["seed"], ctx.scratch))[0]
